@@ -91,13 +91,30 @@ variable {M : Type → Type} [Monad M] {α : Type} [Num α]
 /-- the value of `self.K` -/
 abbrev KSt (α : Type) := Option (List α)
 
+/-- WHICH TEXT of dbm.py the individual methods follow at the two sites where the code as first read
+    (commit b85963e) deviates from `return_all`.  The harness determines the variant of the tree under
+    test by replaying the two Lean witnesses on the real code and hands it to the driver; the theorems
+    of Props/C09 cover both variants (refutation for `asWritten`, full statement for `repaired`).
+      * `zeroEntryTest = true`   : l.1056/1115/1168/1234/1309 `elif np.sum(mi[1,:] == 0):`
+                                   (counts the zero ENTRIES of the liquid row)
+        `zeroEntryTest = false`  : `elif np.sum(mi[1,:]) == 0.:` (liquid total, as in `return_all`)
+      * `gasViscLiquidRow = true` : l.1170 `FluidMixture.viscosity(self, mi[0,:], T, P)[1, 0]`
+        `gasViscLiquidRow = false`: `…[0, 0]` -/
+structure Code where
+  zeroEntryTest : Bool
+  gasViscLiquidRow : Bool
+
+def Code.asWritten : Code := { zeroEntryTest := true, gasViscLiquidRow := true }
+def Code.repaired : Code := { zeroEntryTest := false, gasViscLiquidRow := false }
+
 /-- the attributes of a `FluidParticle` the modelled methods read (all other chemical data is
-    closed over by the library functions) -/
+    closed over by the library functions), and the code variant -/
 structure FluidPar (α : Type) where
   fpType : Nat
   isair : Bool
   sigmaCorr : α       -- self.sigma_correction (a scalar for a FluidParticle)
   Tc : List α         -- self.Tc
+  code : Code := Code.asWritten
 
 /-- `np.pi` -/
 def pi : α := 3.141592653589793
@@ -165,21 +182,24 @@ def mixDiffusivity (lib : Lib M α) (Ta Sa P : α) : M (List α) := do
 
 -- ------------------------------------------------------------------ FluidParticle, individual methods
 
-/-- the condition of the second branch of the INDIVIDUAL methods, l.1056/1115/1168/1234/1309:
-    `elif np.sum(mi[1,:] == 0):` — true as soon as ONE liquid entry is zero -/
-def indivGasBranch (mi1 : List α) : Prop := 0 < countZero mi1
-instance (mi1 : List α) : Decidable (indivGasBranch mi1) := by unfold indivGasBranch; exact inferInstance
+/-- the condition of the second branch of the INDIVIDUAL methods, l.1056/1115/1168/1234/1309.
+    As written: `elif np.sum(mi[1,:] == 0):` — true as soon as ONE liquid entry is zero;
+    repaired: `elif np.sum(mi[1,:]) == 0.:` -/
+def indivGasBranch (c : Code) (mi1 : List α) : Prop :=
+  if c.zeroEntryTest then 0 < countZero mi1 else isZero (Num.sum mi1)
+instance (c : Code) (mi1 : List α) : Decidable (indivGasBranch c mi1) := by
+  unfold indivGasBranch; exact inferInstance
 
 /-- the condition of the second branch of `return_all`, l.1784: `elif np.sum(mi[1,:]) == 0:` -/
 def bundleGasBranch (mi1 : List α) : Prop := isZero (Num.sum mi1)
 instance (mi1 : List α) : Decidable (bundleGasBranch mi1) := by unfold bundleGasBranch; exact inferInstance
 
 /-- l.1053-1067, after the flash -/
-def densityOfFlash (lib : Lib M α) (mi0 mi1 : List α) (T P : α) : M α := do
+def densityOfFlash (lib : Lib M α) (c : Code) (mi0 mi1 : List α) (T P : α) : M α := do
   if isZero (Num.sum mi0) then
     let r ← lib.eosDensity T P mi1
     pure r.2
-  else if indivGasBranch mi1 then
+  else if indivGasBranch c mi1 then
     let r ← lib.eosDensity T P mi0
     pure r.1
   else
@@ -194,15 +214,15 @@ def density (lib : Lib M α) (par : FluidPar α) (K : KSt α) (m : List α) (T P
     pure (row par.fpType r, K)
   else
     let fl ← lib.flash m T P K
-    let v ← densityOfFlash lib fl.1 fl.2.1 T P
+    let v ← densityOfFlash lib par.code fl.1 fl.2.1 T P
     pure (v, fl.2.2)
 
 /-- l.1112-1121 -/
-def fugacityOfFlash (lib : Lib M α) (mi0 mi1 : List α) (T P : α) : M (List α) := do
+def fugacityOfFlash (lib : Lib M α) (c : Code) (mi0 mi1 : List α) (T P : α) : M (List α) := do
   if isZero (Num.sum mi0) then
     let r ← lib.eosFugacity T P mi1
     pure r.2
-  else if indivGasBranch mi1 then
+  else if indivGasBranch c mi1 then
     let r ← lib.eosFugacity T P mi0
     pure r.1
   else
@@ -217,17 +237,17 @@ def fugacity (lib : Lib M α) (par : FluidPar α) (K : KSt α) (m : List α) (T 
     pure (row par.fpType r, K)
   else
     let fl ← lib.flash m T P K
-    let v ← fugacityOfFlash lib fl.1 fl.2.1 T P
+    let v ← fugacityOfFlash lib par.code fl.1 fl.2.1 T P
     pure (v, fl.2.2)
 
-/-- l.1165-1182.  NOTE l.1170: the single-phase-gas branch reads row `[1, 0]` -/
-def viscosityOfFlash (lib : Lib M α) (mi0 mi1 : List α) (T P : α) : M α := do
+/-- l.1165-1182.  NOTE l.1170: as written the single-phase-gas branch reads row `[1, 0]` -/
+def viscosityOfFlash (lib : Lib M α) (c : Code) (mi0 mi1 : List α) (T P : α) : M α := do
   if isZero (Num.sum mi0) then
     let r ← lib.eosViscosity T P mi1
     pure r.2
-  else if indivGasBranch mi1 then
+  else if indivGasBranch c mi1 then
     let r ← lib.eosViscosity T P mi0
-    pure r.2
+    pure (if c.gasViscLiquidRow then r.2 else r.1)
   else
     let mu0 ← lib.eosViscosity T P mi0
     let r0 ← lib.eosDensity T P mi0
@@ -242,7 +262,7 @@ def viscosity (lib : Lib M α) (par : FluidPar α) (K : KSt α) (m : List α) (T
     pure (row par.fpType r, K)
   else
     let fl ← lib.flash m T P K
-    let v ← viscosityOfFlash lib fl.1 fl.2.1 T P
+    let v ← viscosityOfFlash lib par.code fl.1 fl.2.1 T P
     pure (v, fl.2.2)
 
 /-- l.1230-1255 -/
@@ -250,7 +270,7 @@ def sigmaOfFlash (lib : Lib M α) (par : FluidPar α) (mi0 mi1 : List α) (T S P
   if isZero (Num.sum mi0) then
     let r ← mixInterfaceTension lib par mi1 T S P
     pure r.2
-  else if indivGasBranch mi1 then
+  else if indivGasBranch par.code mi1 then
     let r ← mixInterfaceTension lib par mi0 T S P
     pure r.1
   else
@@ -272,11 +292,11 @@ def interfaceTension (lib : Lib M α) (par : FluidPar α) (K : KSt α) (m : List
     pure (v, fl.2.2)
 
 /-- l.1306-1316 -/
-def solubilityOfFlash (lib : Lib M α) (mi0 mi1 : List α) (T P Sa : α) : M (List α) := do
+def solubilityOfFlash (lib : Lib M α) (c : Code) (mi0 mi1 : List α) (T P Sa : α) : M (List α) := do
   if isZero (Num.sum mi0) then
     let r ← mixSolubility lib mi1 T P Sa
     pure r.2
-  else if indivGasBranch mi1 then
+  else if indivGasBranch c mi1 then
     let r ← mixSolubility lib mi0 T P Sa
     pure r.1
   else
@@ -291,7 +311,7 @@ def solubility (lib : Lib M α) (par : FluidPar α) (K : KSt α) (m : List α) (
     pure (row par.fpType r, K)
   else
     let fl ← lib.flash m T P K
-    let v ← solubilityOfFlash lib fl.1 fl.2.1 T P Sa
+    let v ← solubilityOfFlash lib par.code fl.1 fl.2.1 T P Sa
     pure (v, fl.2.2)
 
 /-- `FluidParticle.diameter(m, T, P)` -/
@@ -892,16 +912,18 @@ def runInert (method : String) (tab : List Entry) (par : InertPar Float) (x : II
 end Oracle
 
 open TamocV.Proto in
-/-- `P09.fluid t:method n:fpType n:isair sigmaCorr v:Tc v:m T P Sa Ta n:clean n:hasK v:K  (t:name v:args v:res)*`
+/-- `P09.fluid t:method n:fpType n:isair n:zeroEntryTest n:gasViscLiquidRow sigmaCorr v:Tc v:m T P Sa Ta n:clean n:hasK v:K  (t:name v:args v:res)*`
     → method outputs, `n:hasK' v:K'`, `v:asked n:missed t:missed-names`
     `P09.inert t:method n:isfluid n:iscompressible rhoP gamma beta co n:fpType m T P Sa Ta n:clean (table)*`
     → method outputs, `v:asked n:missed t:missed-names` -/
 def dispatch : Dispatch := fun name args =>
   match name, args with
-  | "P09.fluid", .t method :: .n fp :: .n isair :: .s sc :: .v Tc :: .v m :: .s T :: .s P :: .s Sa ::
+  | "P09.fluid", .t method :: .n fp :: .n isair :: .n zt :: .n gv :: .s sc :: .v Tc :: .v m :: .s T :: .s P :: .s Sa ::
       .s Ta :: .n clean :: .n hasK :: .v K :: rest =>
       (Oracle.parseTable rest).bind fun tab =>
-        Oracle.runFluid method tab { fpType := fp, isair := isair != 0, sigmaCorr := sc, Tc := Tc }
+        Oracle.runFluid method tab
+          { fpType := fp, isair := isair != 0, sigmaCorr := sc, Tc := Tc,
+            code := { zeroEntryTest := zt != 0, gasViscLiquidRow := gv != 0 } }
           (if hasK != 0 then some K else none)
           { m := m, T := T, P := P, Sa := Sa, Ta := Ta, clean := clean != 0 }
   | "P09.inert", .t method :: .n isfluid :: .n iscomp :: .s rhoP :: .s gamma :: .s beta :: .s co ::
